@@ -166,6 +166,16 @@ CHECKS["C18"] = dict(
     design="DESIGN.md section 3 / C18",
 )
 
+CHECKS["C19"] = dict(
+    technique="symbolic interpretation of Rect.intersection/union and SVGShape.bounding_box with opaque min/max, API-choice and guard-structure checks of clip_to_viewbox, hidden-state lint over the shape dataclasses",
+    text="Geometric exactness is Skia's. Decided: the tight-bounds API is used on the current command sequence with the right coordinate "
+         "conversion, nothing memoises geometry on a mutable shape, Rect algebra equals the interval formulas on every path, and clip_to_viewbox "
+         "deletes only disjoint shapes, skips only contained ones and clips the rest against the intersection rectangle at its true origin under "
+         "(fill_rule, clip_rule).",
+    note="Not applicable: exactness of Skia's bounds/intersection at the border.",
+    design="DESIGN.md section 3 / C19",
+)
+
 NOT_APPLICABLE = {}
 
 
